@@ -6,6 +6,7 @@ import Mathlib.Tactic.Linarith
 import Mathlib.Tactic.FieldSimp
 import Mathlib.Tactic.Ring
 import Mathlib.Tactic.LinearCombination
+import Mathlib.Tactic.Positivity
 
 /-!
 # C19 — mission-design helpers (part 3): the Lambert solution solves Kepler's problem
@@ -97,12 +98,101 @@ theorem cos_angle_bounds (r0 r1 : V3) (h0 : V3.dot r0 r0 ≠ 0) (h1 : V3.dot r1 
   rw [le_div_iff₀ hp, div_le_iff₀ hp]
   constructor <;> linarith
 
+/-- **the direction / way selection of `_lambert`, as it is in the source today** (`lamDthetaSrc` is translated from the
+statements of `_lambert` before `A = …` on every run): `arccos` of the normalised dot product, replaced by its complement
+to 2π when a prograde request meets `cr[2] < 0` (strict) or a retrograde request meets `cr[2] >= 0` (non-strict) — so
+that at `cr[2] = 0` (transfer plane containing the z axis) a branch IS taken.  Every theorem below about `lamDtheta`
+goes through this equation; a source whose selection has another shape (e.g. a `sign(cr[2])` factor, zero at
+`cr[2] = 0`) does not satisfy it and the build fails. -/
+theorem lamDtheta_eq (r0 r1 : V3) (pro : Bool) :
+    lamDtheta r0 r1 pro =
+      if pro = true ∧ (V3.cross r0 r1).z < 0 then 2 * Real.pi - Real.arccos (V3.dot r0 r1 / (V3.norm r0 * V3.norm r1))
+      else if pro = false ∧ (V3.cross r0 r1).z ≥ 0 then 2 * Real.pi - Real.arccos (V3.dot r0 r1 / (V3.norm r0 * V3.norm r1))
+      else Real.arccos (V3.dot r0 r1 / (V3.norm r0 * V3.norm r1)) := by
+  have hz : r0.x * r1.y - r0.y * r1.x = (V3.cross r0 r1).z := rfl
+  have hd : r0.x * r1.x + r0.y * r1.y + r0.z * r1.z = V3.dot r0 r1 := rfl
+  unfold lamDtheta lamDthetaSrc
+  simp only [powi, sqrt, acos, pi, norm_expand, hz, hd, Bool.not_eq_true]
+
 /-- whatever branch (prograde / retrograde, short / long way) selects the transfer angle, its cosine is `r₀·r₁ / (|r₀||r₁|)` -/
 theorem lamDtheta_cos (r0 r1 : V3) (pro : Bool) (h0 : V3.dot r0 r0 ≠ 0) (h1 : V3.dot r1 r1 ≠ 0) :
     Real.cos (lamDtheta r0 r1 pro) = V3.dot r0 r1 / (V3.norm r0 * V3.norm r1) := by
   obtain ⟨hlo, hhi⟩ := cos_angle_bounds r0 r1 h0 h1
-  simp only [lamDtheta, acos, pi]
+  rw [lamDtheta_eq]
   split_ifs <;> simp only [Real.cos_two_pi_sub, Real.cos_arccos hlo hhi]
+
+/-- positions that are not collinear (`r₀ × r₁ ≠ 0` **as a vector** — any of its components may vanish) have the
+cosine of their angle strictly inside (-1, 1) -/
+theorem cos_angle_strict (r0 r1 : V3) (h0 : V3.dot r0 r0 ≠ 0) (h1 : V3.dot r1 r1 ≠ 0)
+    (hcr : V3.dot (V3.cross r0 r1) (V3.cross r0 r1) ≠ 0) :
+    -1 < V3.dot r0 r1 / (V3.norm r0 * V3.norm r1) ∧ V3.dot r0 r1 / (V3.norm r0 * V3.norm r1) < 1 := by
+  have hp : 0 < V3.norm r0 * V3.norm r1 := mul_pos (norm_pos_of_dot_ne r0 h0) (norm_pos_of_dot_ne r1 h1)
+  have hpos : 0 < V3.dot (V3.cross r0 r1) (V3.cross r0 r1) := lt_of_le_of_ne (dot_self_nonneg _) (Ne.symm hcr)
+  have hsq : V3.dot r0 r1 ^ 2 < (V3.norm r0 * V3.norm r1) ^ 2 := by
+    rw [mul_pow, norm_sq, norm_sq]
+    have := cross_dot_self r0 r1
+    linarith
+  obtain ⟨hlo, hhi⟩ := abs_lt_of_sq_lt_sq' hsq hp.le
+  rw [lt_div_iff₀ hp, div_lt_iff₀ hp]
+  constructor <;> linarith
+
+/-- the unsigned angle between two non-collinear positions is strictly between 0 and π -/
+theorem arccos_angle_strict (r0 r1 : V3) (h0 : V3.dot r0 r0 ≠ 0) (h1 : V3.dot r1 r1 ≠ 0)
+    (hcr : V3.dot (V3.cross r0 r1) (V3.cross r0 r1) ≠ 0) :
+    0 < Real.arccos (V3.dot r0 r1 / (V3.norm r0 * V3.norm r1)) ∧ Real.arccos (V3.dot r0 r1 / (V3.norm r0 * V3.norm r1)) < Real.pi := by
+  obtain ⟨hlo, hhi⟩ := cos_angle_strict r0 r1 h0 h1 hcr
+  exact ⟨Real.arccos_pos.mpr hhi, Real.arccos_lt_pi.mpr hlo⟩
+
+/-- **the transfer angle is a proper one for every non-collinear geometry**: whenever `r₀ × r₁ ≠ 0` as a vector —
+in particular when its z component is exactly zero — and for either request, `0 < Δθ < 2π` and `Δθ ≠ π`
+(so `sin Δθ ≠ 0`, `cos Δθ ≠ 1`: `A` is finite and non-zero, see `lambert_A_ne_zero`). -/
+theorem lamDtheta_range (r0 r1 : V3) (pro : Bool) (h0 : V3.dot r0 r0 ≠ 0) (h1 : V3.dot r1 r1 ≠ 0)
+    (hcr : V3.dot (V3.cross r0 r1) (V3.cross r0 r1) ≠ 0) :
+    0 < lamDtheta r0 r1 pro ∧ lamDtheta r0 r1 pro < 2 * Real.pi ∧ lamDtheta r0 r1 pro ≠ Real.pi := by
+  obtain ⟨hlo, hhi⟩ := arccos_angle_strict r0 r1 h0 h1 hcr
+  have hpi := Real.pi_pos
+  rw [lamDtheta_eq]
+  split_ifs <;> refine ⟨by linarith, by linarith, fun h => ?_⟩ <;> linarith
+
+/-- **the two requests are the two ways round**: for every geometry the prograde and the retrograde transfer angles
+add up to a full turn — also at `cr[2] = 0`, where a selection through `sign(cr[2])` gives the same angle twice
+(`Witness/C19.lean`). -/
+theorem lamDtheta_two_ways (r0 r1 : V3) : lamDtheta r0 r1 true + lamDtheta r0 r1 false = 2 * Real.pi := by
+  rw [lamDtheta_eq, lamDtheta_eq]
+  by_cases h : (V3.cross r0 r1).z < 0
+  · have h' : ¬ (V3.cross r0 r1).z ≥ 0 := not_le.mpr h
+    simp [h, h']
+  · have h' : (V3.cross r0 r1).z ≥ 0 := not_lt.mp h
+    simp [h, h']
+
+/-- the sign of `sin Δθ` is the one the request asks for: with `n = (r₀ × r₁) / (|r₀||r₁| sin Δθ)` the unit normal of the
+transfer orbit, `n_z = cr[2] / (|r₀||r₁| sin Δθ)` is ≥ 0 for a prograde request and ≤ 0 for a retrograde one, and it is
+non-zero whenever `cr[2]` is. -/
+theorem lamDtheta_direction (r0 r1 : V3) (pro : Bool) (h0 : V3.dot r0 r0 ≠ 0) (h1 : V3.dot r1 r1 ≠ 0)
+    (hcr : V3.dot (V3.cross r0 r1) (V3.cross r0 r1) ≠ 0) :
+    (pro = true → 0 ≤ (V3.cross r0 r1).z * Real.sin (lamDtheta r0 r1 pro)) ∧
+    (pro = false → (V3.cross r0 r1).z * Real.sin (lamDtheta r0 r1 pro) ≤ 0) ∧
+    ((V3.cross r0 r1).z ≠ 0 → (V3.cross r0 r1).z * Real.sin (lamDtheta r0 r1 pro) ≠ 0) ∧
+    Real.sin (lamDtheta r0 r1 pro) ≠ 0 := by
+  obtain ⟨hlo, hhi⟩ := arccos_angle_strict r0 r1 h0 h1 hcr
+  have hs : 0 < Real.sin (Real.arccos (V3.dot r0 r1 / (V3.norm r0 * V3.norm r1))) := Real.sin_pos_of_pos_of_lt_pi hlo hhi
+  rw [lamDtheta_eq]
+  split_ifs with c1 c2
+  · rw [Real.sin_two_pi_sub]
+    refine ⟨fun _ => by nlinarith [c1.2], fun hp => by simp [c1.1] at hp, fun _ => by nlinarith [c1.2], by linarith⟩
+  · rw [Real.sin_two_pi_sub]
+    refine ⟨fun hp => by simp [c2.1] at hp, fun _ => by nlinarith [c2.2], fun hz => ?_, by linarith⟩
+    have : 0 < (V3.cross r0 r1).z := lt_of_le_of_ne c2.2 (Ne.symm hz)
+    nlinarith
+  · cases pro
+    · have hz : (V3.cross r0 r1).z < 0 := by
+        by_contra hge; exact c2 ⟨rfl, not_lt.mp hge⟩
+      refine ⟨fun hp => by simp at hp, fun _ => by nlinarith, fun _ => by nlinarith, hs.ne'⟩
+    · have hz : 0 ≤ (V3.cross r0 r1).z := by
+        by_contra hlt; exact c1 ⟨rfl, not_le.mp hlt⟩
+      refine ⟨fun _ => mul_nonneg hz hs.le, fun hp => by simp at hp, fun hne => ?_, hs.ne'⟩
+      have : 0 < (V3.cross r0 r1).z := lt_of_le_of_ne hz (Ne.symm hne)
+      exact (mul_pos this hs).ne'
 
 /-- `A² = |r₀||r₁| + r₀·r₁` for the `A` computed by `_lambert`, for all four direction/way cases -/
 theorem lambert_A_sq (r0 r1 : V3) (pro : Bool) (h0 : V3.dot r0 r0 ≠ 0) (h1 : V3.dot r1 r1 ≠ 0)
@@ -244,9 +334,91 @@ theorem lambert_solves_universal_kepler_dtheta (r0 r1 : V3) (pro : Bool) (z dt m
   lambert_solves_universal_kepler r0 r1 _ z dt mu (lambert_A_sq r0 r1 pro h0 h1 hnc) hA0 hmu hC hy
     (norm_pos_of_dot_ne r0 h0) hF
 
+/-- **`A` is finite and non-zero for every non-collinear geometry, either request** (the hypotheses `hnc`, `hA0` of
+`lambert_solves_universal_kepler_dtheta` are consequences of `r₀ × r₁ ≠ 0`), and it has the sign of `sin Δθ`. -/
+theorem lambert_A_ne_zero (r0 r1 : V3) (pro : Bool) (h0 : V3.dot r0 r0 ≠ 0) (h1 : V3.dot r1 r1 ≠ 0)
+    (hcr : V3.dot (V3.cross r0 r1) (V3.cross r0 r1) ≠ 0) :
+    lamA (V3.norm r0) (V3.norm r1) (lamDtheta r0 r1 pro) ≠ 0 ∧
+    0 < lamA (V3.norm r0) (V3.norm r1) (lamDtheta r0 r1 pro) * Real.sin (lamDtheta r0 r1 pro) := by
+  have hp : 0 < V3.norm r0 * V3.norm r1 := mul_pos (norm_pos_of_dot_ne r0 h0) (norm_pos_of_dot_ne r1 h1)
+  have hsin := (lamDtheta_direction r0 r1 pro h0 h1 hcr).2.2.2
+  have hc : 0 < 1 - Real.cos (lamDtheta r0 r1 pro) := by
+    rw [lamDtheta_cos r0 r1 pro h0 h1]; linarith [(cos_angle_strict r0 r1 h0 h1 hcr).2]
+  have hq : 0 < Real.sqrt (V3.norm r0 * V3.norm r1 / (1 - Real.cos (lamDtheta r0 r1 pro))) :=
+    Real.sqrt_pos.mpr (div_pos hp hc)
+  have hs2 : 0 < Real.sin (lamDtheta r0 r1 pro) ^ 2 := by positivity
+  simp only [lamA, sin, cos, sqrt]
+  refine ⟨mul_ne_zero hsin hq.ne', ?_⟩
+  nlinarith [mul_pos hs2 hq]
+
+/-- `lambert_solves_universal_kepler_dtheta` with its geometric hypotheses reduced to "the positions are not collinear":
+**for every `r₀ × r₁ ≠ 0` (whatever its z component) and either request**, a zero of `F` with `y > 0`, `C > 0` gives a
+departure state solving Kepler's universal equation for the requested time. -/
+theorem lambert_solves_universal_kepler_noncollinear (r0 r1 : V3) (pro : Bool) (z dt mu : ℝ)
+    (h0 : V3.dot r0 r0 ≠ 0) (h1 : V3.dot r1 r1 ≠ 0)
+    (hcr : V3.dot (V3.cross r0 r1) (V3.cross r0 r1) ≠ 0) (hmu : 0 < mu) (hC : 0 < lamC z)
+    (hy : 0 < lamY (V3.norm r0) (V3.norm r1) (lamA (V3.norm r0) (V3.norm r1) (lamDtheta r0 r1 pro)) z)
+    (hF : lamF (V3.norm r0) (V3.norm r1) (lamA (V3.norm r0) (V3.norm r1) (lamDtheta r0 r1 pro)) z dt mu = 0) :
+    let A := lamA (V3.norm r0) (V3.norm r1) (lamDtheta r0 r1 pro)
+    let v0 := (lamVel (V3.norm r0) (V3.norm r1) A z mu r0 r1).1
+    let χ := Real.sqrt (lamY (V3.norm r0) (V3.norm r1) A z / lamC z)
+    let α := 2 / V3.norm r0 - V3.dot v0 v0 / mu
+    α * χ ^ 2 = z ∧
+    Real.sqrt mu * dt = V3.dot r0 v0 / Real.sqrt mu * χ ^ 2 * lamC z
+      + (1 - α * V3.norm r0) * χ ^ 3 * lamS z + V3.norm r0 * χ := by
+  have hp : 0 < V3.norm r0 * V3.norm r1 := mul_pos (norm_pos_of_dot_ne r0 h0) (norm_pos_of_dot_ne r1 h1)
+  have hnc : V3.dot r0 r1 ≠ V3.norm r0 * V3.norm r1 := by
+    intro h
+    have := (cos_angle_strict r0 r1 h0 h1 hcr).2
+    rw [h, div_self hp.ne'] at this
+    exact lt_irrefl _ this
+  exact lambert_solves_universal_kepler_dtheta r0 r1 pro z dt mu h0 h1 hnc (lambert_A_ne_zero r0 r1 pro h0 h1 hcr).1 hmu hC hy hF
+
+/-- **the returned departure velocity goes round the way that was requested**: the z component of the angular momentum
+`r₀ × v₀` of the returned state is ≥ 0 for a prograde request and ≤ 0 for a retrograde one (non-collinear positions,
+`y(z) > 0`, `µ > 0`; `z` any value of the iteration variable). -/
+theorem lambert_v0_direction (r0 r1 : V3) (pro : Bool) (z mu : ℝ)
+    (h0 : V3.dot r0 r0 ≠ 0) (h1 : V3.dot r1 r1 ≠ 0)
+    (hcr : V3.dot (V3.cross r0 r1) (V3.cross r0 r1) ≠ 0) (hmu : 0 < mu)
+    (hy : 0 < lamY (V3.norm r0) (V3.norm r1) (lamA (V3.norm r0) (V3.norm r1) (lamDtheta r0 r1 pro)) z) :
+    let A := lamA (V3.norm r0) (V3.norm r1) (lamDtheta r0 r1 pro)
+    let v0 := (lamVel (V3.norm r0) (V3.norm r1) A z mu r0 r1).1
+    (pro = true → 0 ≤ (V3.cross r0 v0).z) ∧ (pro = false → (V3.cross r0 v0).z ≤ 0) := by
+  intro A v0
+  obtain ⟨hA0, hAs⟩ := lambert_A_ne_zero r0 r1 pro h0 h1 hcr
+  obtain ⟨hpro, hretro, _, hsin⟩ := lamDtheta_direction r0 r1 pro h0 h1 hcr
+  set s := Real.sin (lamDtheta r0 r1 pro) with hs
+  set c := (V3.cross r0 r1).z with hc
+  have hq : 0 < Real.sqrt (|lamY (V3.norm r0) (V3.norm r1) A z| / mu) :=
+    Real.sqrt_pos.mpr (div_pos (abs_pos.mpr hy.ne') hmu)
+  -- (r0 × v0).z = c / g with g = A * sqrt(|y|/mu)
+  have hz : (V3.cross r0 v0).z = c / (A * Real.sqrt (|lamY (V3.norm r0) (V3.norm r1) A z| / mu)) := by
+    simp only [v0, lamVel, lamFG, V3.cross, V3.smul, V3.sub, hc, absR, sqrt]
+    field_simp
+    ring
+  have hA2 : 0 < A ^ 2 := by positivity
+  have hs2 : 0 < s ^ 2 := by positivity
+  -- c * A has the sign of c * s because A * s > 0
+  have key : ∀ x : ℝ, c / (A * x) = (c * s) * (A * s) / (A ^ 2 * s ^ 2 * x) := by
+    intro x
+    by_cases hx : x = 0
+    · simp [hx]
+    · field_simp
+  rw [hz, key]
+  have hden : 0 < A ^ 2 * s ^ 2 * Real.sqrt (|lamY (V3.norm r0) (V3.norm r1) A z| / mu) := by positivity
+  constructor
+  · intro hp
+    exact div_nonneg (mul_nonneg (hpro hp) hAs.le) hden.le
+  · intro hp
+    exact div_nonpos_of_nonpos_of_nonneg (mul_nonpos_of_nonpos_of_nonneg (hretro hp) hAs.le) hden.le
+
 example : (1 - (0 : ℝ) * lamS 0) ^ 2 = lamC 0 * (2 - 0 * lamC 0) := stumpff_identity 0
 
 example : lamA 1 1 Real.pi ^ 2 = 1 * 1 * (1 + Real.cos Real.pi) :=
   lamA_sq 1 1 Real.pi (by rw [Real.cos_pi]; norm_num) (by norm_num)
+
+/-- a transfer plane containing the z axis (`cr[2] = 0` exactly) satisfies the hypotheses of the theorems above -/
+example : V3.dot (V3.cross ⟨1, 0, 0⟩ ⟨0, 0, 1⟩) (V3.cross ⟨1, 0, 0⟩ ⟨0, 0, 1⟩) ≠ 0 ∧ (V3.cross ⟨1, 0, 0⟩ ⟨0, 0, 1⟩).z = 0 := by
+  simp [V3.dot, V3.cross]
 
 end BeyondVerif.C19
